@@ -18,6 +18,7 @@ import (
 	"strconv"
 	"strings"
 	"syscall"
+	"time"
 
 	"verifh/kit/vio"
 )
@@ -152,7 +153,7 @@ func cmdRowsChild(args []string) {
 			return
 		}
 		vio.Emit(map[string]interface{}{"rowstat": true, "row": idx, "ty": ln.Row.Name, "encodes": st.encodes, "decodes": st.decodes,
-			"cuts": st.cuts, "muts": st.muts, "skipped": st.skipped, "classes": st.fresh})
+			"cuts": st.cuts, "muts": st.muts, "skipped": st.skipped, "bigskip": st.bigskip, "classes": st.fresh})
 		vio.Flush()
 	}
 }
@@ -161,6 +162,12 @@ func cmdRowsParent() {
 	data, err := io.ReadAll(os.Stdin)
 	if err != nil {
 		vio.Fatal("read stdin: %v", err)
+	}
+	hangLimit := 45 * time.Second
+	if s := os.Getenv("VERIF_HANG_S"); s != "" {
+		if n, err := strconv.Atoi(s); err == nil && n > 0 {
+			hangLimit = time.Duration(n) * time.Second
+		}
 	}
 	mf, err := os.CreateTemp(".", "vd-schema-marker-")
 	if err != nil {
@@ -182,7 +189,31 @@ func cmdRowsParent() {
 		if err := cmd.Start(); err != nil {
 			vio.Fatal("start worker: %v", err)
 		}
+		// watchdog: a decoder call that does not return (a loop bounded only by an input count) is killed and reported
+		done := make(chan struct{})
+		hung := false
+		go func() {
+			last, lastChange := make([]byte, 16), time.Now()
+			for {
+				select {
+				case <-done:
+					return
+				case <-time.After(2 * time.Second):
+				}
+				mk := make([]byte, 16)
+				mf.ReadAt(mk, 0)
+				if !bytes.Equal(mk, last) {
+					copy(last, mk)
+					lastChange = time.Now()
+				} else if binary.LittleEndian.Uint64(mk[0:8]) != 0 && time.Since(lastChange) > hangLimit {
+					hung = true
+					cmd.Process.Kill()
+					return
+				}
+			}
+		}()
 		werr := cmd.Wait()
+		close(done)
 		if werr == nil {
 			break
 		}
@@ -210,6 +241,10 @@ func cmdRowsParent() {
 			}
 		}
 		site := crashSite(trace)
+		if hung {
+			site = fmt.Sprintf("no-return-within-%ds", int(hangLimit.Seconds()))
+			head = "killed by the watchdog"
+		}
 		vio.Emit(map[string]interface{}{"issue": "decode-crash", "fatal": true, "row": row, "case": cs, "ty": desc["ty"], "j": desc["j"],
 			"key": fmt.Sprintf("decode-crash:%v:%s", desc["ty"], site), "bytes": desc["bytes"],
 			"detail": map[string]interface{}{"what": desc["what"], "strict": desc["strict"], "exit": werr.Error(), "stderr": head}})
